@@ -245,6 +245,14 @@ def slice_seq(E, s, sl, kind=None):
     return SSeq(kind or s.kind, n, lambda i: g(z3.simplify(zint(i) + za)))
 
 
+def obj_seq(arr, length, wrap, unwrap):
+    """list of symbolic-identity objects: z3 array of ids + length; wrap(id term) -> SRef, unwrap(value) -> id term"""
+    s = SSeq("list", length, None)
+    s.arr, s.wrap, s.unwrap = arr, wrap, unwrap
+    s.get = lambda i: s.wrap(z3.Select(s.arr, zint(i)))
+    return s
+
+
 def fresh_seq(E, name, kind, length, lo=None, hi=None):
     """Fresh symbolic integer sequence backed by a z3 array; element range facts are
     instantiated lazily at every access (quantifier-free)."""
@@ -523,7 +531,7 @@ def str_of(E, v):
         return FmtStr("int", (v,))
     if isinstance(v, enum.Enum):
         return str(v)
-    if isinstance(v, SStr):
+    if isinstance(v, (SStr, FmtStr)):
         return v
     return FmtStr("str", (v,))
 
@@ -955,6 +963,14 @@ def list_method(E, obj, name, args, kwargs):
 
 
 def seq_method(E, s, name, args, kwargs):
+    if name == "append" and getattr(s, "unwrap", None) is not None:
+        rid = s.unwrap(args[0])
+        s.arr = z3.Store(s.arr, zint(s.length), rid)
+        s.length = z3.simplify(zint(s.length) + 1) if not isinstance(s.length, int) else s.length + 1
+        return None
+    if name == "clear" and getattr(s, "unwrap", None) is not None:
+        s.length = 0
+        return None
     if name == "append":
         x = E.as_int(args[0], "element")
         if s.kind not in SSeq.MUTABLE:
